@@ -50,7 +50,7 @@ func streamSpecAt(name string, n, max int, mixed bool, prefix string) *spec.Spec
 func c17(args []string) {
 	c := chk.New("C17", "exploration", args)
 	c.Build(false)
-	c.Rule("[shapes] a producer task with two streaming ports and a consumer for each; a consumer with a joined in-port beside the streamed one (bytes, pipes gone at return, the producer named in the consumer's record); producer/consumer pairs connected by an {os:..} port: n in {1,2,4} (and 12, 24, 40 with the producers exiting last) streamed items with maxConcurrentTasks in 2n..2n+2 (the producer's regular output, when it has one, feeds a consumer of its own), payload sizes {0,1,4095,65536,65537,1 MiB} (below and above the pipe buffer), exit order forced both ways (producer or consumer lingers after closing its files), producers with only a streaming output and with an additional regular output, producer and consumer taking different numbers of slots with maxConcurrentTasks exactly their sum, two producer processes streaming into one in-port of the consumer, consumers with an ordinary in-port beside the streamed one, every third producer also prints 220 kB to stdout / stderr, the re-run histories put the consumer's own output below plain / nested / parent-relative / absolute directories, every fourth run in a working directory whose path contains blanks, SCIPIPE_BUFSIZE and yield seeds varied; history 'complete run, then run again'; oracle: sha256 the consumer read through the FIFO == sha256 the producer wrote (both logged by the commands), consumer output == reference, at the instant Run returns no FIFO and no regular file at the stream path, consumer audit names the producer under Upstream[stream path], hang classification incl. FIFO-blocked children (wchan), re-run terminates and leaves inode/mtime/bytes of consumer outputs untouched. distinct_nontrivial = distinct (n, max, size, exit order, mixed, config) runs whose byte comparison was made")
+	c.Rule("[through components] the streamed item passes MapToTags or IPSelectorSync before its consumer: the consumer is given the FIFO, reads the producer's bytes, no pipe or regular file stays; [shapes] a producer task with two streaming ports and a consumer for each; a consumer with a joined in-port beside the streamed one (bytes, pipes gone at return, the producer named in the consumer's record); producer/consumer pairs connected by an {os:..} port: n in {1,2,4} (and 12, 24, 40 with the producers exiting last) streamed items with maxConcurrentTasks in 2n..2n+2 (the producer's regular output, when it has one, feeds a consumer of its own), payload sizes {0,1,4095,65536,65537,1 MiB} (below and above the pipe buffer), exit order forced both ways (producer or consumer lingers after closing its files), producers with only a streaming output and with an additional regular output, producer and consumer taking different numbers of slots with maxConcurrentTasks exactly their sum, two producer processes streaming into one in-port of the consumer, consumers with an ordinary in-port beside the streamed one, every third producer also prints 220 kB to stdout / stderr, the re-run histories put the consumer's own output below plain / nested / parent-relative / absolute directories, every fourth run in a working directory whose path contains blanks, SCIPIPE_BUFSIZE and yield seeds varied; history 'complete run, then run again'; oracle: sha256 the consumer read through the FIFO == sha256 the producer wrote (both logged by the commands), consumer output == reference, at the instant Run returns no FIFO and no regular file at the stream path, consumer audit names the producer under Upstream[stream path], hang classification incl. FIFO-blocked children (wchan), re-run terminates and leaves inode/mtime/bytes of consumer outputs untouched. distinct_nontrivial = distinct (n, max, size, exit order, mixed, config) runs whose byte comparison was made")
 	c.Assume("one consumer per streaming port; maxConcurrentTasks >= 2n (each producer and its consumer can run at the same time)")
 	rng := c.Rand("c17")
 	type job struct {
@@ -365,6 +365,7 @@ func c17(args []string) {
 		c.Nontrivial(fmt.Sprintf("rerun|%d|%v|%d", j.n, j.mixed, j.cshape))
 	})
 	c17shapes(c)
+	c17throughComponents(c)
 	c.Finish()
 }
 
@@ -516,5 +517,102 @@ func c17shapes(c *chk.Ctx) {
 		}
 		c.Count("streamed_items_compared", n)
 		c.Nontrivial(fmt.Sprintf("streamshape|%v|%d|%v", two, n, cfg))
+	})
+}
+
+// c17throughComponents: the streamed item passes a bundled pass-through component (MapToTags, IPSelectorSync) on its way
+// from the {os:...} port to its consumer: what the consumer is handed is still the FIFO, it reads the producer's
+// bytes, Run returns, and no FIFO stays behind.
+func c17throughComponents(c *chk.Ctx) {
+	run.Parallel(c.Pick(4, 12), func(i int) {
+		root := c.CaseDir()
+		defer c.Drop(root)
+		in, o1 := []spec.PortDecl{{Name: "in"}}, []spec.PortDecl{{Name: "out"}}
+		via := []string{"maptotags", "selector"}[i%2]
+		n := 1 + (i/2)%2
+		s := &spec.Spec{Name: "streamvia" + via, MaxTasks: 2*n + 1, Sources: map[string]string{}}
+		src := &spec.Proc{Name: "src", Kind: spec.KFileSource}
+		for k := 0; k < n; k++ {
+			f := fmt.Sprintf("v%d.txt", k)
+			src.Files = append(src.Files, f)
+			s.Sources[f] = f + "\n"
+		}
+		s.Procs = append(s.Procs, src,
+			&spec.Proc{Name: "PROD", Kind: spec.KCmd, Cmd: spec.BuildCmd("PROD", in, []spec.PortDecl{{Name: "out", Stream: true}}, nil, nil, map[string]string{"size": []string{"300", "70000"}[(i/4)%2]}), Outs: []*spec.Out{{Port: "out", Pattern: "sv/{i:in|basename}.stream"}}},
+			&spec.Proc{Name: "CONS", Kind: spec.KCmd, Cmd: spec.BuildCmd("CONS", in, o1, nil, nil, nil), Outs: []*spec.Out{{Port: "out", Pattern: "{i:in|basename}.c1"}}})
+		if via == "maptotags" {
+			s.Procs = append(s.Procs, &spec.Proc{Name: "VIA", Kind: spec.KMapToTags, Tags: []*spec.TagRule{{Key: "grp", Rule: "idx"}}})
+			s.Conns = append(s.Conns, &spec.Conn{From: "src.out", To: "PROD.in"}, &spec.Conn{From: "PROD.out", To: "VIA.in"}, &spec.Conn{From: "VIA.out", To: "CONS.in"})
+		} else {
+			s.Procs = append(s.Procs, &spec.Proc{Name: "VIA", Kind: spec.KSelector, Ports: []string{"a"}, Pred: "all"})
+			s.Conns = append(s.Conns, &spec.Conn{From: "src.out", To: "PROD.in"}, &spec.Conn{From: "PROD.out", To: "VIA.a"}, &spec.Conn{From: "VIA.a", To: "CONS.in"})
+		}
+		bh := vproto.Behaviours{"CONS": {"post": "600"}}
+		cfg := Cfg{Buf: []int{128, 1}[i%2], Procs: 4, NoHooks: i%4 >= 2, SoftSec: 12}
+		desc := map[string]interface{}{"via": via, "spec": s, "cfg": cfg}
+		res := execSpec(c, root, s, cfg, bh, false, 0)
+		if res.Hang != "" {
+			if strings.HasPrefix(res.Hang, "deadlock") || strings.Contains(res.Hang, "fifo") || strings.Contains(res.HangInfo, ".fifo") {
+				c.Violation("streaming-hang|through-"+via, res.Hang+"\n"+clip(res.HangInfo, 800), desc)
+			} else {
+				c.Inconclusive(res.Hang)
+			}
+			return
+		}
+		var ps []mon.Problem
+		if res.Exit != 0 || !res.Returned {
+			ps = append(ps, mon.Problem{Sig: "streaming-run-failed", Msg: fmt.Sprintf("exit %d: %s", res.Exit, tail(res.Output(), 400))})
+		} else {
+			for _, l := range res.Ret.Listing {
+				if l.Mode == "p" || strings.HasSuffix(l.Path, ".fifo") {
+					ps = append(ps, mon.Problem{Sig: "fifo-left", Msg: "FIFO " + l.Path + " exists when Run returns"})
+				}
+				if strings.HasSuffix(l.Path, ".stream") && l.Mode == "f" {
+					ps = append(ps, mon.Problem{Sig: "regular-file-at-streaming-path", Msg: l.Path + " is a regular file"})
+				}
+			}
+			ti := mon.Index(res.Trace)
+			seen := 0
+			for _, es := range ti.Ends {
+				for _, e := range es {
+					if e.ID != "CONS" {
+						continue
+					}
+					seen++
+					ok := false
+					for _, ps2 := range ti.Ends {
+						for _, pe := range ps2 {
+							if pe.ID == "PROD" && pe.Outs["out"] != "" && pe.Outs["out"] == e.Ins["in"] {
+								ok = true
+							}
+						}
+					}
+					if !ok {
+						ps = append(ps, mon.Problem{Sig: "stream-bytes-differ", Msg: fmt.Sprintf("CONS read sha %s through its streamed port; no producer task wrote that", clip(e.Ins["in"], 12))})
+					}
+				}
+			}
+			if seen != n {
+				ps = append(ps, mon.Problem{Sig: "streaming-run-failed", Msg: fmt.Sprintf("%d consumer tasks ended, %d streamed items", seen, n)})
+			}
+			for _, es := range ti.Starts {
+				for _, e := range es {
+					for _, a := range e.Argv {
+						if e.ID == "CONS" && strings.HasPrefix(a, "i=in:") && !strings.HasSuffix(a, ".fifo") {
+							ps = append(ps, mon.Problem{Sig: "consumer-not-given-the-fifo", Msg: "CONS was given " + a + " for its streamed input"})
+						}
+					}
+				}
+			}
+		}
+		if len(ps) > 0 {
+			for _, sig := range sigSet(ps) {
+				desc["problems"] = mon.Summarize(ps, 10)
+				c.Violation(sig+"|through-"+via, fmt.Sprintf("streamed item routed through %s: %s", via, strings.Join(mon.Summarize(ps, 4), "\n  ")), desc)
+			}
+			return
+		}
+		c.Count("streamed_items_compared", n)
+		c.Nontrivial(fmt.Sprintf("streamvia|%s|%d|%v", via, n, cfg))
 	})
 }
